@@ -507,6 +507,9 @@ func (r *Rules) toProto(f *Field) (*validate.FieldRules, error) {
 }
 
 func setNumericRules(fr *validate.FieldRules, kind string, r *Rules) error {
+	if r.NumGroup != "" {
+		kind = r.NumGroup
+	}
 	// The per-kind rule messages share field names (gt, gte, lt, lte, const, in), so fill
 	// them reflectively.
 	msgName := map[string]string{"int32": "int32", "sint32": "sint32", "sfixed32": "sfixed32", "int64": "int64",
